@@ -2,10 +2,11 @@ SPECIFICATION Spec
 CONSTANTS
   Kinds <- AllKinds
   NPaths = {1, 3}
-  Steps = {1, 2, 5, 21}
+  HalfSteps = {0, 2, 3, 8, 40, 41}
   MaxDepth = 3
 INVARIANT UniformShape
 INVARIANT NothingSurvives
+INVARIANT StepsCoverHorizon
 INVARIANT Emit
 PROPERTY SimulateReplacesAll
 CHECK_DEADLOCK FALSE
